@@ -227,8 +227,10 @@ def run_c31(chk: vlib.Check):
     rng = random.Random(chk.seed)
     r = model_run(chk, "MCCarats", ["Extend", "Pick"])
     cases = [carats_concretise(p, rng) for tag, p in r.printed if tag == "CASE"]
-    if len(cases) != r.coverage["Pick"][1] or not cases:
-        raise vlib.ToolError(f"MCCarats: {len(cases)} CASE lines for {r.coverage['Pick'][1]} Pick transitions")
+    ntexts = len({tuple(p["text"]) for tag, p in r.printed if tag == "CASE"}) + 1      # + the empty text
+    if not cases or len(cases) + ntexts != r.distinct:
+        # every case is one distinct state next to the text states; a lost CASE line would go unnoticed otherwise
+        raise vlib.ToolError(f"MCCarats: {len(cases)} CASE lines + {ntexts} texts for {r.distinct} distinct states")
     for c in cases:
         c["src"] = "model"
     nrand = 3000 if chk.tier == "quick" else 40000
@@ -347,8 +349,8 @@ def run_c33(chk: vlib.Check):
     G, T = signed_tokens(bindir)
     r = model_run(chk, "MCSignedSource", ["Extend"])
     cases = [signed_concretise(p, rng, G, T) for tag, p in r.printed if tag == "CASE"]
-    if len(cases) != r.coverage["Extend"][1] or not cases:
-        raise vlib.ToolError(f"MCSignedSource: {len(cases)} CASE lines for {r.coverage['Extend'][1]} transitions")
+    if not cases or len(cases) != r.distinct - 1:
+        raise vlib.ToolError(f"MCSignedSource: {len(cases)} CASE lines for {r.distinct} distinct states")
     for c in cases:
         c["src"] = "model"
     nrand = 1500 if chk.tier == "quick" else 15000
@@ -366,7 +368,7 @@ def run_c33(chk: vlib.Check):
         "rule": "distinct contents (as lexeme sequences); non-trivial = contains the signing token '@generated '+token. "
                 "Model cases: every sequence over {c, d, '@generated ', token, old signature} up to MaxLen lexemes; "
                 "random cases: up to 14 pieces incl. near-miss fragments and non-ASCII characters.  For every signed "
-                "file every single-character substitution (each position x 3 other characters) is verified.",
+                "file every single-character substitution (each position x 4 other characters of different kinds) is verified.",
         "model_cases": sum(1 for x in records if x["src"] == "model"), "random_cases": nrand,
         "edits_verified": sum(x.get("edits_tried", 0) for x in records),
         "contents_with_signing_token": len(with_tok),
@@ -379,7 +381,7 @@ def run_c33(chk: vlib.Check):
         "'the signing token' = signedsource::SIGNING_TOKEN ('@generated ' + NEWTOKEN), as documented on the constant; "
         "a bare NEWTOKEN without the prefix is outside the statement (drift only)",
         "md5 collision resistance (the model's hash is an uninterpreted injective function)",
-        "'changing any character' = substituting one character by another one (no insertions/deletions); 3 replacement "
+        "'changing any character' = substituting one character by another one (no insertions/deletions); 4 replacement "
         "characters per position",
         "'the signature' = the SignedSource<<digest>> lexemes that signing created (digest not already present in the content)",
     ]
@@ -566,7 +568,7 @@ def run_c23(chk: vlib.Check):
         raise vlib.ToolError("MCLspPos emitted no CASE")
     for s in skels:
         s["src"] = "model"
-    skels += lsp_random_skeletons(rng, 300 if chk.tier == "quick" else 4000)
+    skels += lsp_random_skeletons(rng, 300 if chk.tier == "quick" else 2000)
     cases = [lsp_build_case(s, rng) for s in skels]
     proj = lsp_project(chk)
     raw = run_harness(bindir, "textfn_lsp", cases, args=[str(proj)], timeout=1500)
